@@ -34,6 +34,9 @@ pub enum Ty {
     Bool,
     Str,
     Char,
+    /// a built-in or library conversion the model does not predict: such a run is judged for
+    /// totality only (C07), never for which errors come back
+    Any(&'static str),
 }
 
 #[derive(Clone, Debug, PartialEq)]
@@ -289,6 +292,25 @@ pub fn meta_receivers() -> BTreeMap<&'static str, RecvDesc> {
             f("hu", bmap(KeyKind::Str, Ty::U8)).dflt(),
             f("hph", hmap(KeyKind::Str, ph(2607))).dflt(),
         ]),
+    ));
+    // built-in conversions, judged for totality only (C07 "every built-in conversion")
+    let loose = |names: &[&'static str]| -> Vec<FieldDesc> { names.iter().map(|n| f(n, opt(Ty::Any(n)))).collect() };
+    add(recv(
+        "L1",
+        Struct(loose(&["i8", "i16", "i32", "i64", "i128", "isize", "u8", "u16", "u32", "u64", "u128", "usize", "nzu8", "nzi64", "nzu128", "f32", "f64"])),
+    ));
+    add(recv(
+        "L2",
+        Struct(loose(&[
+            "string", "char", "bool", "pathbuf", "unit", "abool", "path", "ident", "expr", "ty", "vis", "wherec", "litstr", "litint", "litbool", "lit", "meta",
+            "exprarray", "exprpath", "exprrange",
+        ])),
+    ));
+    add(recv(
+        "L3",
+        Struct(loose(&[
+            "vlitstr", "vlitint", "vu8", "vu64", "vwhere", "pathlist", "flag", "identstring", "spbool", "ovu8", "wobool", "punct", "hmss", "rcu8", "arcs", "refb", "rmeta", "dres", "pexpr",
+        ])),
     ));
     // keyed collections as root targets (C14); hash maps and their ordered twins share site ids
     for (h, b, key, val) in [
